@@ -25,7 +25,7 @@ pub struct UpdCase {
     pub segs: Vec<usize>,
     pub keep: usize,
     pub crlf: bool,
-    /// per test: 0 pass, 1 changed output, 2 changed exit code, 3 changed output without final newline
+    /// per test: 0 pass, 1 changed output, 2 changed exit code (non-zero), 3 changed output without final newline, 4 exit code 0 where another was expected
     pub outcomes: Vec<u8>,
 }
 
@@ -76,7 +76,9 @@ fn outputs_for(tests: &[TestCase], kinds: &[u8]) -> Vec<Output> {
                 0 => Output { stdout: passing_output(tc).into(), stderr: vec![].into(), exit_code: ExitStatus::Code(expected) },
                 1 => Output { stdout: b"new1\nnew (glob)\n".to_vec().into(), stderr: vec![].into(), exit_code: ExitStatus::Code(expected) },
                 2 => Output { stdout: passing_output(tc).into(), stderr: vec![].into(), exit_code: ExitStatus::Code(if expected == 3 { 4 } else { 3 }) },
-                _ => Output { stdout: b"new1\nlast".to_vec().into(), stderr: vec![].into(), exit_code: ExitStatus::Code(expected) },
+                3 => Output { stdout: b"new1\nlast".to_vec().into(), stderr: vec![].into(), exit_code: ExitStatus::Code(expected) },
+                // the other direction of an exit code change: 0 where a code was expected (or 5 where none was)
+                _ => Output { stdout: passing_output(tc).into(), stderr: vec![].into(), exit_code: ExitStatus::Code(if expected != 0 { 0 } else { 5 }) },
             }
         })
         .collect()
@@ -146,7 +148,7 @@ impl Engine for VcUpdate {
                     // number of tests is only known after parsing: enumerate outcome vectors up to 3 tests lazily in check
                     // here: one case per outcome vector index 0..4^3, filtered in check by the actual test count
                     let segs = segs.clone();
-                    (0..64u8).map(move |code| UpdCase { segs: segs.clone(), keep, crlf, outcomes: vec![code & 3, (code >> 2) & 3, (code >> 4) & 3] })
+                    (0..125u8).map(move |code| UpdCase { segs: segs.clone(), keep, crlf, outcomes: vec![code % 5, (code / 5) % 5, code / 25] })
                 })
             })
         });
@@ -164,7 +166,7 @@ impl Engine for VcUpdate {
     }
     fn bound(&self, tier: Tier) -> String {
         format!(
-            "all documents of <= {} segments over vc_md's {} segments with every truncation inside the last segment (LF; CRLF for outcome vectors that differ in the first test only) that the parser accepts x every outcome vector in {{pass, changed output, changed exit code, changed output without final newline}}^n for the n <= 3 tests x 3 successive applications of update",
+            "all documents of <= {} segments over vc_md's {} segments with every truncation inside the last segment (LF; CRLF for outcome vectors that differ in the first test only) that the parser accepts x every outcome vector in {{pass, changed output, changed exit code, changed output without final newline, exit code 0 instead of the expected one}}^n for the n <= 3 tests x 3 successive applications of update",
             if tier == Tier::Quick { 2 } else { 3 },
             segments().len()
         )
